@@ -42,9 +42,10 @@ static unsigned char *mutate(const pkt_t *p,const char *mut,long *bytes,link_t *
   else if(mut&&!strcmp(mut,"m=hdr")){ free(b); n=L->pk[0].bytes; b=malloc(n+16); memcpy(b,L->pk[0].data,n); }
   *bytes=n; return b;
 }
+static long g_packed_bits;
 static unsigned char *pack_fields(char **tok,int from,int nt,long *bytes){
-  oggpack_buffer o; oggpack_writeinit(&o);
-  for(int i=from;i<nt;i++){ long v=0; int n=0; if(sscanf(tok[i],"%ld:%d",&v,&n)==2&&n>0&&n<=32) oggpack_write(&o,(unsigned long)v,n); }
+  oggpack_buffer o; oggpack_writeinit(&o); g_packed_bits=0;
+  for(int i=from;i<nt;i++){ long v=0; int n=0; if(sscanf(tok[i],"%ld:%d",&v,&n)==2&&n>0&&n<=32){ oggpack_write(&o,(unsigned long)v,n); g_packed_bits+=n; } }
   *bytes=oggpack_bytes(&o); unsigned char *b=malloc(*bytes+16); memcpy(b,oggpack_get_buffer(&o),*bytes); memset(b+*bytes,0,16); oggpack_writeclear(&o); return b;
 }
 static const char *find_opt(char **tok,int nt,const char *key){ size_t kl=strlen(key); for(int i=0;i<nt;i++) if(!strncmp(tok[i],key,kl)) return tok[i]+kl; return NULL; }
@@ -120,7 +121,7 @@ static void cmd(char **tok,int nt){
     ogg_packet op; memset(&op,0,sizeof op); op.packet=b; op.bytes=nb; op.packetno=3+k; op.granulepos=gp; op.e_o_s=eos;
     int rs=vorbis_synthesis(&x->vb,&op); long used=oggpack_bits(&x->vb.opb); int rW=x->vb.W; int rb=-9999; if(rs==0) rb=vorbis_synthesis_blockin(&x->vd,&x->vb); free(b);
     ev_begin("Synthesis"); ev_i("d",di); ev_i("k",k); ev_i("mut",rnd); ev_i("W",rs==0?rW:W); ev_i("cW",rnd?(rs==0?rW:W):W); ev_i("no",op.packetno); ev_i("gp",op.granulepos); ev_i("eos",op.e_o_s); ev_i("bytes",nb);
-    ev_i("rs",rs); ev_i("used",used); ev_i("rb",rb); ev_i("gpf",0); ev_i("syn",1); ev_dst(x); ev_end();
+    ev_i("rs",rs); ev_i("used",used); ev_i("rb",rb); ev_i("gpf",0); ev_i("syn",1); ev_i("xused",rnd?-1:g_packed_bits); ev_dst(x); ev_end();
     if(rs==0&&rb==0){ x->lastk=k; }
     /* hand the samples out: a silent spectrum must give exact silence */
     float **pcm=NULL; int n=vorbis_synthesis_pcmout(&x->vd,&pcm); int zero=1; if(n>0) for(int ch=0;ch<x->vi.channels&&zero;ch++) for(int i=0;i<n;i++) if(pcm[ch][i]!=0.0f){ zero=0; break; }
